@@ -878,6 +878,14 @@ class Tracked {
 inline void born(const Tracked* t, const char* cls, bool) {
   S().live[t] = std::make_pair(t->serial, std::string(cls));
 }
+// an object's "peer" (a child, a neighbour it owns) belongs to that object alone: copying or assigning the object
+// does not share it (the copy makes its own on demand)
+template <class T> struct OwnedPeer {
+  std::shared_ptr<T> p;
+  OwnedPeer() {}
+  OwnedPeer(const OwnedPeer&) {}
+  OwnedPeer& operator=(const OwnedPeer&) { return *this; }
+};
 // a class-typed data member is an object of its own, owned by (and dying with) the enclosing object
 inline void owns(const Tracked* owner, const Tracked* member) {
   Event e; e.entity = "own"; e.overload = 0; e.self = owner->serial;
@@ -996,8 +1004,8 @@ def _ret_expr(r, e="e"):
     if r.mode in ("cref_peer", "ref_peer"):
         # a reference to ANOTHER object of the class, owned by this one (a child, a neighbour): `T& f()` is not
         # always `return *this`
-        return ("if (!this->peer_) { this->peer_ = std::make_shared<%s>(typename %s::LibTag()); "
-                "lib::owns(this, this->peer_.get()); } %s rv = *this->peer_; e.ret = lib::enc_obj(&rv);"
+        return ("if (!this->peer_.p) { this->peer_.p = std::make_shared<%s>(typename %s::LibTag()); "
+                "lib::owns(this, this->peer_.p.get()); } %s rv = *this->peer_.p; e.ret = lib::enc_obj(&rv);"
                 % (r.name, r.name, r.cpp()))
     if r.mode in ("cref", "ref"):
         # a reference to the object itself (declared in the class or in a class derived from it): the wrapper
@@ -1096,7 +1104,7 @@ def emit_library(p):
         for f in c.statics:
             out.append("  static %s %s(%s) { %s }" % (_cpp_ret(f.ret), f.name, _sig(f.args), _body(f, "0", f.ret)))
         if any(not isinstance(f.ret, tuple) and f.ret is not None and str(f.ret.mode).endswith("_peer") for f in c.methods):
-            out.append("  mutable std::shared_ptr<%s> peer_;" % c.name)
+            out.append("  mutable lib::OwnedPeer<%s> peer_;" % c.name)
         for pn, pt in c.props:
             init = {"int": " = 0", "double": " = 0.0", "bool": " = false", "size_t": " = 0"}.get(pt.name, "")
             if pt.kind == "class":
